@@ -4,46 +4,39 @@ import (
 	"bytes"
 	"fmt"
 	"image"
-	"image/color"
-	"time"
+	"math/rand"
+	"runtime"
 
-	_ "github.com/deepteams/webp"
-	"github.com/deepteams/webp/animation"
+	"github.com/deepteams/webp"
 )
 
-func pic(vals ...uint8) *image.NRGBA {
-	im := image.NewNRGBA(image.Rect(0, 0, 5, 2))
-	for i, v := range vals {
-		a := uint8(255)
-		if v == 0 {
-			a = 0
-		}
-		im.SetNRGBA(i%5, i/5, color.NRGBA{v, v, v, a})
-	}
-	return im
-}
-
 func main() {
-	A := pic(10, 10, 10, 10, 10, 10, 10, 10, 10, 10)
-	B := pic(10, 10, 10, 10, 10, 10, 10, 10, 99, 10)
-	C := pic(10, 10, 10, 10, 10, 10, 10, 10, 99, 0)
-	var buf bytes.Buffer
-	e := animation.NewEncoder(&buf, 5, 2, &animation.EncodeOptions{Lossless: true, Quality: 75, Kmin: 3, Kmax: 5})
-	for i, p := range []*image.NRGBA{A, A, B, B, C} {
-		d := []int{7, 100, 16777214, 7, 16777214}[i]
-		if err := e.AddFrame(p, time.Duration(d)*time.Millisecond); err != nil {
-			panic(err)
+	for _, procs := range []int{1, 8} {
+		runtime.GOMAXPROCS(procs)
+		for seed := int64(1); seed <= 4; seed++ {
+			rng := rand.New(rand.NewSource(seed))
+			w, h := 200, 150
+			p := image.NewNRGBA(image.Rect(0, 0, w, h))
+			for y := 0; y < h; y++ {
+				for x := 0; x < w; x++ {
+					i := p.PixOffset(x, y)
+					p.Pix[i] = uint8((x*255/w + rng.Intn(12)) & 255)
+					p.Pix[i+1] = uint8((y*255/h + rng.Intn(12)) & 255)
+					p.Pix[i+2] = uint8(((x+y)*2 + rng.Intn(30)) & 255)
+					p.Pix[i+3] = 255
+				}
+			}
+			for _, m := range []int{2, 3, 4, 6} {
+				for part := 0; part <= 3; part++ {
+					var buf bytes.Buffer
+					err := webp.Encode(&buf, p, &webp.EncoderOptions{Quality: 40, Method: m, Partitions: part})
+					_, derr := webp.Decode(bytes.NewReader(buf.Bytes()))
+					if err != nil || derr != nil {
+						fmt.Println("procs", procs, "seed", seed, "method", m, "partitions", part, "enc", err, "dec", derr)
+					}
+				}
+			}
 		}
 	}
-	if err := e.Close(); err != nil {
-		panic(err)
-	}
-	a, err := animation.DecodeBytes(buf.Bytes())
-	if err != nil {
-		panic(err)
-	}
-	a.DecodeFrames()
-	for i, f := range a.Frames {
-		fmt.Println(i, f.OffsetX, f.OffsetY, f.Image.Bounds(), "dur", f.Duration, "blend", f.Blend, "dispose", f.Dispose, f.Image.(*image.NRGBA).Pix)
-	}
+	fmt.Println("done")
 }
